@@ -484,6 +484,8 @@ def run(chk):
                           "next_dequeue_ticket is advanced without the equality test against the head of the done list")
 
     block_processor_rules(chk, prog)
+    tail_append_rule(chk, prog)
+    chk.floor("L11", 3)
     chk.floor("L1", 25)
     chk.floor("L2", 10)
     chk.floor("L3", 15)
@@ -658,6 +660,110 @@ def pre_create_blocks(ctor):
                 after.add(s)
                 stack.append(s)
     return {b for b in ctor.blocks if b not in after and b not in cr}
+
+
+def tail_append_rule(chk, prog0, units=(("libsquashfs.la", "lib/util/src/threadpool.c"), ("libutil.a", "lib/util/src/threadpool_serial.c"))):
+    """L11: a node that becomes the tail of one of the pool's queues has a NULL link.  The tail fields are found by what is
+    done with them (`pool->T->link = x`); at every `pool->T = x` the node x is either fresh from calloc, or its link was
+    set to NULL on every path since it was taken off another list (in this function or in the static helper that
+    returned it).  A recycled node that keeps its old link splices the list it came from into the queue: items are
+    processed that were never submitted, or twice."""
+    from ..errflow import ret_sources
+    n = 0
+    for art, src in units:
+        prog = prog0 if prog0.name == art else load_program(art)
+        unit = prog.by_src.get(src)
+        if unit is None:
+            chk.broke("L11: %s is not part of %s" % (src, art))
+            continue
+        fns = [f.build() for f in unit.functions.values() if not f.decl]
+        # tail fields and the link field:  store x -> gep(load gep(pool, T), link)
+        tails = {}
+        for f in fns:
+            for i in f.insts():
+                if i.op != "store":
+                    continue
+                p = strip_casts(i.ops[1])
+                if not (p.is_inst and p.op == "getelementptr" and p.field()):
+                    continue
+                b = strip_casts(p.ops[0])
+                if b.is_inst and b.op == "load":
+                    q = strip_casts(b.ops[0])
+                    if q.is_inst and q.op == "getelementptr" and q.field() and p.field()[0] != q.field()[0]:
+                        # pool->T->link = x with T of the node's own pointer type
+                        if (getattr(i.ops[0], "ty", "") or "") == (b.ty or "") and (b.ty or "").endswith("*"):
+                            # ... followed by  pool->T = x  with the same x: that is an append at the tail
+                            x_ = strip_casts(i.ops[0])
+                            if any(j.op == "store" and strip_casts(j.ops[0]) is x_ and strip_casts(j.ops[1]).is_inst and
+                                   strip_casts(j.ops[1]).op == "getelementptr" and strip_casts(j.ops[1]).field() == q.field()
+                                   for j in f.insts()):
+                                tails[q.field()] = p.field()
+        if not tails:
+            chk.broke("L11: no tail pointer of a queue found in %s" % src)
+            continue
+
+        def link_null(f, x, at, link, depth=0):
+            x = strip_casts(x)
+            if x.is_const:
+                return True            # NULL itself: nothing is appended
+            if depth > 4:
+                return False
+            setters = [i for i in f.insts() if i.op == "store" and strip_casts(i.ops[1]).is_inst and
+                       strip_casts(i.ops[1]).op == "getelementptr" and strip_casts(i.ops[1]).field() == link and
+                       strip_casts(strip_casts(i.ops[1]).ops[0]) is x]
+            dirty = [i for i in setters if not (i.ops[0].is_const and i.ops[0].is_null)]
+            clean = [i for i in setters if i.ops[0].is_const and i.ops[0].is_null]
+            if x.is_inst and x.op == "phi":
+                # judged where each value comes in; afterwards nothing may set the link through the merged name
+                if any(f.inst_dominates(d, at) or f.reaches(d.bb, at.bb) for d in dirty):
+                    return False
+                return all(link_null(f, o, pr.term, link, depth + 1) for o, pr in zip(x.ops, x.x["inc"]))
+            if x.is_inst and x.op == "call":
+                nm = norm_callee(x.callee) if x.callee else None
+                fresh = nm == "calloc"
+                if not fresh and x.callee:
+                    h = prog.fn(x.callee, f.unit)
+                    if h is not None and not h.decl and h.unit is f.unit:
+                        h.build()
+                        srcs = ret_sources(h)
+                        fresh = bool(srcs) and all(link_null(h, v, b.term, link, depth + 1) for (v, b) in srcs)
+                if fresh:
+                    return not any(f.inst_dominates(x, d) and (f.inst_dominates(d, at) or f.reaches(d.bb, at.bb)) for d in dirty)
+            # taken from somewhere else: a store of NULL to its link in front of `at`, nothing dirtying it afterwards
+            for c in clean:
+                if not f.inst_dominates(c, at):
+                    continue
+                if any((f.inst_dominates(c, d) or f.reaches(c.bb, d.bb)) and (f.inst_dominates(d, at) or f.reaches(d.bb, at.bb))
+                       and d is not c for d in dirty):
+                    continue
+                return True
+            # memset(x, 0, sizeof) in front, no dirtying store afterwards
+            for c in f.calls("memset"):
+                if strip_casts(c.ops[0]) is x and c.ops[1].is_const and c.ops[1].is_int and c.ops[1].uval == 0 and f.inst_dominates(c, at):
+                    if not any((f.inst_dominates(c, d) or f.reaches(c.bb, d.bb)) and (f.inst_dominates(d, at) or f.reaches(d.bb, at.bb))
+                               for d in dirty):
+                        return True
+            return False
+        for f in fns:
+            for i in f.insts():
+                if i.op != "store":
+                    continue
+                p = strip_casts(i.ops[1])
+                if not (p.is_inst and p.op == "getelementptr" and p.field() in tails):
+                    continue
+                if i.ops[0].is_const:
+                    continue
+                n += 1
+                chk.analysed(f)
+                T = p.field()
+                inst = "%s:%s" % (f.name, T[1])
+                if link_null(f, i.ops[0], i, tails[T]):
+                    chk.ok("L11", inst, i, "the node that becomes the tail is fresh from calloc or had its link cleared since it left its last list")
+                else:
+                    chk.violation("L11", inst, i, "a node becomes the tail of the queue ('%s') while its link may still point into the list "
+                                  "it was taken from: the queue continues into that list, items are handed to the worker that were "
+                                  "never submitted or are processed twice" % T[1])
+    return n
 
 
 def block_processor_rules(chk, prog):
